@@ -12,7 +12,7 @@ package ipfslog
 //@ define inMap(m iface.IPFSLogOrderedEntries, e iface.IPFSLogEntry) = has(om(m).values, ehash(e)) && om(m).values[ehash(e)] == e
 // sepMaps: the three index maps of a log are distinct objects with distinct value maps (ownership)
 //@ define sepMaps(l *IPFSLog) = om(l.Entries) != om(l.heads) && om(l.Entries) != om(l.Next) && om(l.heads) != om(l.Next) && om(l.Entries).values != om(l.heads).values && om(l.Entries).values != om(l.Next).values && om(l.heads).values != om(l.Next).values
-//@ define logInv(l *IPFSLog) = l != nil && validEntries(l.Entries) && validEntries(l.heads) && isOM(l.Next) && sepMaps(l) && validClock(l.Clock) && l.Identity != nil && l.SortFn != nil && l.AccessController != nil && validAnyIO(l.io) && l.Storage != nil
+//@ define logInv(l *IPFSLog) = l != nil && validEntries(l.Entries) && validEntries(l.heads) && isOM(l.Next) && sepMaps(l) && validClock(l.Clock) && l.Identity != nil && l.Clock.(*entry.LamportClock).ID == l.Identity.PublicKey && l.SortFn != nil && l.AccessController != nil && validAnyIO(l.io) && l.Storage != nil
 
 //@ guarded IPFSLog.Entries by IPFSLog.lock
 //@ guarded IPFSLog.heads by IPFSLog.lock
@@ -108,7 +108,7 @@ package ipfslog
 //@   ensures err == nil ==> validEntry(result0) && fresh(result0)
 //@   ensures [appended-entry-names-exactly-the-heads] err == nil ==> (forall k string :: old(has(om(l.heads).values, k)) ==> exists i int :: 0 <= i && i < len(result0.Next) && str(result0.Next[i]) == k)
 //@   ensures [appended-entry-names-only-heads] err == nil ==> (forall i int, k string :: 0 <= i && i < len(result0.Next) && k == str(result0.Next[i]) ==> old(has(om(l.heads).values, k)))
-//@   ensures [appended-entry-clock-id-is-writer-key] err == nil ==> result0.Clock.ID == old(l.Clock.(*entry.LamportClock).ID)
+//@   ensures [appended-entry-clock-id-is-writer-key] err == nil ==> result0.Clock.ID == old(l.Clock.(*entry.LamportClock).ID) && result0.Clock.ID == l.Identity.PublicKey
 //@   ensures [appended-entry-time-dominates-clock] err == nil ==> etime(result0) > old(l.Clock.(*entry.LamportClock).Time)
 //@   ensures [appended-entry-time-dominates-heads] err == nil ==> forall k string :: old(has(om(l.heads).values, k)) ==> etime(result0) > etime(old(om(l.heads).values[k]))
 //@   ensures [skip-references-are-logarithmic-in-pointer-count] err == nil && opts != nil && opts.PointerCount >= 1 ==> len(result0.Refs) <= ilog2(opts.PointerCount) + 2
@@ -273,3 +273,23 @@ package ipfslog
 //@     invariant validEntry(eA)
 //@     lockinvariant held[om(res).lock] == 0
 //@     loopfresh
+
+// ---- NewLog (establishes the log invariant) ----
+//@ define validLogOptions(o *iface.LogOptions) = (o.Entries == nil || validEntries(o.Entries)) && validSlice(o.Heads) && (o.Clock == nil || validClock(o.Clock)) && (o.IO == nil || validAnyIO(o.IO))
+//@ func NewLog
+//@   requires options == nil || validLogOptions(options)
+//@   modifies fields(options)
+//@   ensures services == nil || identity == nil ==> err != nil
+//@   ensures [new-log-establishes-the-invariant] err == nil ==> result0 != nil && fresh(result0) && logInv(result0) && result0.Identity == identity
+//@   ensures [new-log-holds-the-given-entries] err == nil && options != nil && old(options.Entries) != nil ==> forall k string :: has(om(result0.Entries).values, k) == has(om(old(options.Entries)).values, k) && (has(om(old(options.Entries)).values, k) ==> om(result0.Entries).values[k] == om(old(options.Entries)).values[k])
+//@   lockensures err == nil ==> held[result0.lock] == 0
+//@   loop 0
+//@     invariant isOM(next)
+//@     invariant fresh(next) && fresh(om(next).values) && freshKeys(om(next))
+//@     invariant options != nil && validEntries(options.Entries)
+//@     lockinvariant held[om(next).lock] == 0
+//@     loopmodifies om(next).keys, mapof(om(next).values)
+//@   loop 1
+//@     invariant isOM(next) && fresh(next) && fresh(om(next).values) && freshKeys(om(next)) && options != nil && validEntries(options.Entries) && validEntry(e)
+//@     lockinvariant held[om(next).lock] == 0
+//@     loopmodifies om(next).keys, mapof(om(next).values)
